@@ -28,6 +28,7 @@ type Script struct {
 	SessionPresent bool
 	ConnackCode    byte
 	AutoPing       bool
+	AutoAck        bool // answer PUBLISH/PUBREL/SUBSCRIBE/UNSUBSCRIBE like a conforming broker
 	// OnPkt is called under Tr.Mu for every packet after the automatic handling.
 	OnPkt func(c *memnet.Conn, p *mqttref.Packet, raw []byte) (failWrite bool)
 	In    []InPkt
@@ -48,6 +49,26 @@ func (s *Script) OnPacket(c *memnet.Conn, raw []byte, p *mqttref.Packet, perr er
 			}
 		case mqttref.DISCONNECT:
 			c.PeerCloseLocked("DISCONNECT received")
+		}
+		if s.AutoAck {
+			switch p.Type {
+			case mqttref.PUBLISH:
+				if p.QoS == 1 {
+					c.SendLocked(mqttref.EncAck(mqttref.PUBACK, p.ID), "")
+				} else if p.QoS == 2 {
+					c.SendLocked(mqttref.EncAck(mqttref.PUBREC, p.ID), "")
+				}
+			case mqttref.PUBREL:
+				c.SendLocked(mqttref.EncAck(mqttref.PUBCOMP, p.ID), "")
+			case mqttref.SUBSCRIBE:
+				codes := make([]byte, len(p.Subs))
+				for i, sb := range p.Subs {
+					codes[i] = sb.QoS
+				}
+				c.SendLocked(mqttref.EncSubAck(p.ID, codes), "")
+			case mqttref.UNSUBSCRIBE:
+				c.SendLocked(mqttref.EncAck(mqttref.UNSUBACK, p.ID), "")
+			}
 		}
 	}
 	if s.OnPkt != nil {
